@@ -8,6 +8,10 @@ CLAIMED = {
          "7 C02", "Lean 4 proof + model/implementation correspondence + spec-decoder monitor"),
  "C03": ("Lean 4 theorems (feed/append law => chunking invariance, no panic site, early size rejection, table equality with the standard) about an executable model of decode.rs/mqtt/*.rs; reason-code tables observed exhaustively from the implementation; reference encoder written from the OASIS text generates the faithful-decoding inputs",
          "7 C03", "Lean 4 proof + exhaustive table tie + model/implementation correspondence"),
+ "C16": ("Lean 4 theorems relating the model of validate.rs / mqtt/*::validate_* to the standard's validity rules (user-property name and value bounds, PUBLISH static validity, limits and packet size at last-chance validation); validators tied to the model by differential correspondence; an independent validity predicate written from the OASIS text judges what the real validators accept",
+         "7 C16", "Lean 4 proof + model/implementation correspondence + spec validity monitor"),
+ "C17": ("Lean 4 theorems on the alias resolvers (inbound resolver = reference client table; manual outbound resolver's table = the table a conformant server derives from the wire; null resolver never aliases); all three outbound resolvers and the inbound resolver tied to the model by differential correspondence; a reference server-table replay judges the implementation's resolutions. Engine-level clause (binding recorded before a failed last-chance validation) is exercised by the engine walks once built",
+         "7 C17", "Lean 4 proof + model/implementation correspondence + reference server-table replay"),
 }
 PENDING = {}
 ids = [json.loads(l)["id"] for l in open(os.path.join(VERIF, "properties.jsonl"))]
